@@ -183,6 +183,16 @@ class Worklist:
                         mem = self._membership(c)
                         if mem is not None:
                             tested.add(norm(mem[1]))
+        # membership filters of `S.extend(x for x in … if x not in M)` count as tests too
+        for (_n, c) in self.pushes():
+            ext = getattr(c, "_extend_of", None)
+            if ext is not None:
+                for i_ in ext.args[0].generators[0].ifs:
+                    for cmp_ in ast.walk(i_):
+                        if isinstance(cmp_, ast.Compare):
+                            mem = self._membership(cmp_)
+                            if mem is not None:
+                                tested.add(norm(mem[1]))
         return sorted(m for m in tested if self.marks(m))
 
     def iteration_reach(self, srcs: Sequence[Node], removed=(), removed_edges=()) -> Set[Node]:
